@@ -80,7 +80,7 @@ func rulePDF417Arith(c *Ctx) {
 			return
 		}
 		n.Bind[vidx] = "v"
-		c.expectCond(R, "pdf417.Compute/every-codeword", outer.Instrs[0].Pos(), n.EdgeCond(outer, outer.Succs[0]), "v < len(data)")
+		c.expectCond(R, "pdf417.Compute/every-codeword", outer.Instrs[0].Pos(), n.LoopCond(outer), "v < len(data)")
 		// the register loop runs for every codeword (no early continue)
 		c.expectCond(R, "pdf417.Compute/register-loop-always", inner.Instrs[0].Pos(), n.ReachCond(fn, outer.Succs[0], inner), "true")
 		// registers are rewritten front to back: q = index written, whatever the loop variable is
@@ -143,14 +143,14 @@ func rulePDF417Arith(c *Ctx) {
 		} else {
 			n.Bind[cphi] = "c"
 			c.Check(RD, "pdf417.calcDimensions/first-column", cphi.Pos(), cinit == 2, "2 (minCols)", fmt.Sprint(cinit))
-			c.expectCond(RD, "pdf417.calcDimensions/while", cphi.Pos(), n.EdgeCond(hdr, hdr.Succs[0]), "c <= 30")
+			c.expectCond(RD, "pdf417.calcDimensions/while", cphi.Pos(), n.LoopCond(hdr), "c <= 30")
 			// the row count of the candidate: a call in the loop body whose value is the number of rows
 			// for c columns (calculateNumberOfRows directly, or through a local closure/helper)
 			var rcall *ssa.Call
 			crows := c.P.Func("pdf417.calculateNumberOfRows")
 			eachInstr(fn, func(b *ssa.BasicBlock, ins ssa.Instruction) {
 				call, ok := ins.(*ssa.Call)
-				if !ok || rcall != nil || !(hdr.Dominates(b) && hdr.Succs[0].Dominates(b)) {
+				if !ok || rcall != nil || !(hdr.Dominates(b) && inLoopBody(hdr, b)) {
 					return
 				}
 				cal := calleeOf(call)
@@ -246,7 +246,7 @@ func rulePDF417Arith(c *Ctx) {
 			// inner loop accumulating the chunk's codewords: a slice-typed header phi inside the chunk loop
 			found := false
 			for _, b := range fn.Blocks {
-				if b == outer || !outer.Succs[0].Dominates(b) {
+				if b == outer || !inLoopBody(outer, b) {
 					continue
 				}
 				for _, ins := range b.Instrs {
@@ -274,11 +274,11 @@ func rulePDF417Arith(c *Ctx) {
 						fresh := false
 						switch x := e.(type) {
 						case *ssa.Slice:
-							if a, ok := x.X.(*ssa.Alloc); ok && outer.Succs[0].Dominates(a.Block()) {
+							if a, ok := x.X.(*ssa.Alloc); ok && inLoopBody(outer, a.Block()) {
 								fresh = true
 							}
 						case *ssa.MakeSlice:
-							fresh = outer.Succs[0].Dominates(x.Block())
+							fresh = inLoopBody(outer, x.Block())
 						case *ssa.Const:
 							fresh = x.Value == nil
 						}
@@ -291,7 +291,7 @@ func rulePDF417Arith(c *Ctx) {
 			eachInstr(fn, func(b *ssa.BasicBlock, ins ssa.Instruction) {
 				if sl, ok := ins.(*ssa.Slice); ok && sl.X == ssa.Value(fn.Params[0]) {
 					c.expectPoly(RN, "pdf417.encodeNumeric/chunk-start", sl.Pos(), n, sl.Low, "ch*44")
-					cs := n.valueCases(fn, outer.Succs[0], sl.High, 0)
+					cs := n.valueCases(fn, loopBodyStart(outer), sl.High, 0)
 					checkCases(c, RN, "pdf417.encodeNumeric/chunk-end", sl.Pos(), cs, []edgeSpec{{"ch*44 + 44", "ch*44 + 44 <= len(digits)"}, {"len(digits)", "ch*44 + 44 > len(digits)"}})
 				}
 			})
@@ -595,29 +595,52 @@ func ruleAztecHighLevel(c *Ctx) {
 			if idx != nil {
 				n.Bind[idx] = "i"
 			}
-			got := map[int64]string{}
-			for _, cs := range n.valueCases(fn, nil, call.Common().Args[3], 0) {
-				k, ok := cs.val.IsConst()
-				if !ok {
-					continue
+			// the look-ahead byte: data[i+1] when there is one, else 0
+			var hdr *ssa.BasicBlock
+			if p, ok := idx.(*ssa.Phi); ok {
+				hdr = p.Block()
+			}
+			if hdr == nil {
+				c.Undecided(R, "aztec.highlevelEncode/loop", call.Pos(), "position loop not found")
+				continue
+			}
+			body := hdr.Succs[0]
+			var nx *ssa.Phi
+			eachInstr(fn, func(b *ssa.BasicBlock, ins ssa.Instruction) {
+				p, ok := ins.(*ssa.Phi)
+				if !ok || b == hdr || !hdr.Dominates(b) || nx != nil {
+					return
 				}
-				for _, ref := range []struct {
-					code int64
-					cond string
-				}{{2, "data[i] == 13 && nx == 10"}, {3, "data[i] == 46 && nx == 32"}, {4, "data[i] == 44 && nx == 32"}, {5, "data[i] == 58 && nx == 32"}} {
-					if ref.code != k {
-						continue
+				if sz, _ := intSize(p.Type()); sz != 8 || len(p.Edges) != 2 {
+					return
+				}
+				for _, e := range p.Edges {
+					if k, ok := n.Norm(e).IsConst(); ok && k == 0 {
+						nx = p
 					}
-					_ = ref
-					got[k] = cs.cond.String()
 				}
+			})
+			if nx == nil {
+				c.Undecided(R, "aztec.highlevelEncode/next-char", call.Pos(), "look-ahead byte (0 at the end of the data) not found")
+				continue
 			}
-			c.Check(R, "aztec.highlevelEncode/pair-codes", call.Pos(), len(got) == 4, "pair codes 2,3,4,5 are produced", fmt.Sprint(len(got)))
-			for k, s := range got {
-				ch := map[int64]string{2: "13", 3: "46", 4: "44", 5: "58"}[k]
-				nxt := map[int64]string{2: "10", 3: "32", 4: "32", 5: "32"}[k]
-				c.Check(R, fmt.Sprintf("aztec.highlevelEncode/pair-code-%d", k), call.Pos(), strings.Contains(s, "data[i] - "+ch+" == 0") && strings.Contains(s, " - "+nxt+" == 0"), "current byte "+ch+" followed by "+nxt, trunc(s, 200))
-			}
+			checkPhiDef(c, R, "aztec.highlevelEncode/next-char", n, fn, body, nx, []edgeSpec{{"data[i+1]", "i + 1 < len(data)"}, {"0", "i + 1 >= len(data)"}})
+			n.Bind[nx] = "nx"
+			// the pair code by cases, relative to the start of the loop body
+			checkCases(c, R, "aztec.highlevelEncode/pair-code", call.Pos(), n.valueCases(fn, body, call.Common().Args[len(call.Common().Args)-1], 0), []edgeSpec{
+				{"2", "data[i] == 13 && nx == 10"},
+				{"3", "data[i] == 46 && nx == 32"},
+				{"4", "data[i] == 44 && nx == 32"},
+				{"5", "data[i] == 58 && nx == 32"},
+				{"0", ""}, // otherwise (the four conditions above are exact)
+			})
+			// a pair is consumed as a pair exactly when its code is positive
+			pc := call.Common().Args[len(call.Common().Args)-1] // the pair code is the last argument
+			n.Bind[pc] = "pc"
+			// (the pair code is 0 or one of 2..5, see the table above: compared on pc >= 0)
+			dom := MustRefCond("pc >= 0")
+			c.expectCondC(R, "aztec.highlevelEncode/pair-iff", call.Pos(), cAnd(dom, n.ReachCond(fn, pc.(ssa.Instruction).Block(), call.Block())), cAnd(dom, MustRefCond("pc > 0")))
+			delete(n.Bind, pc)
 		}
 	}
 	_ = token.ADD
@@ -759,7 +782,7 @@ func gfAppendForm(c *Ctx, R string, n *Normer, fn *ssa.Function) {
 	first := shapes[0].init
 	n.Bind[idx] = "q"
 	c.Check(R, "utils.(*GFPoly).AddOrSubstract/loop-start", elem.call.Pos(), pEqual(first, MustRef("len(L) - len(S)")) && pEqual(shapes[0].step, pConst(1)), "q from len(L)-len(S) step 1", fmt.Sprintf("first %s, step %s", first, shapes[0].step))
-	c.expectCondC(R, "utils.(*GFPoly).AddOrSubstract/loop-while", elem.call.Pos(), n.EdgeCond(h, h.Succs[0]), MustRefCond("q < len(L)"))
+	c.expectCondC(R, "utils.(*GFPoly).AddOrSubstract/loop-while", elem.call.Pos(), n.LoopCond(h), MustRefCond("q < len(L)"))
 	args := []string{n.Norm(xorCall.Common().Args[1]).String(), n.Norm(xorCall.Common().Args[2]).String()}
 	sort.Strings(args)
 	want := []string{"L[q]", "S[" + MustRef("q - (len(L) - len(S))").String() + "]"}
